@@ -1118,6 +1118,13 @@ func (self *LockDB) checkMillisecondExpried(ms int64, glockIndex uint16) {
 					nodeQueues[j] = nil
 					continue
 				}
+				if remaining := lock.expriedMs - ms; remaining > 0 && remaining < MILLISECOND_QUEUE_LENGTH {
+					// the hold's terms were changed after this entry was filed (the entry cannot be taken out of
+					// its slot then): not due yet under the new terms, file it under their deadline
+					self.pushMillisecondExpried(lock, lock.expriedMs)
+					nodeQueues[j] = nil
+					continue
+				}
 				lock.expriedTime = lock.startTime + (int64(lock.command.Expried)+999)/1000 + 1
 				if lock.command.Expried >= MILLISECOND_QUEUE_LENGTH {
 					self.AddExpried(lock)
@@ -1998,10 +2005,8 @@ func (self *LockDB) doExpried(lock *Lock, forcedExpried bool, removeWaited bool)
 	}
 }
 
-func (self *LockDB) AddMillisecondExpried(lock *Lock) {
-	lock.expried = false
-	ms := time.Now().UnixNano()/1e6 + int64(lock.command.Expried%MILLISECOND_QUEUE_LENGTH)
-
+// pushMillisecondExpried files the hold in the millisecond queue that is swept at ms (caller holds the shard mutex)
+func (self *LockDB) pushMillisecondExpried(lock *Lock, ms int64) {
 	lockQueue := self.millisecondExpriedLocks[lock.manager.glockIndex][ms%MILLISECOND_QUEUE_LENGTH]
 	if lockQueue == nil {
 		lockQueue = self.freeMillisecondWaitQueues[lock.manager.glockIndex].GetLockQueue()
@@ -2009,6 +2014,13 @@ func (self *LockDB) AddMillisecondExpried(lock *Lock) {
 		go self.checkMillisecondExpried(ms, lock.manager.glockIndex)
 	}
 	_ = lockQueue.Push(lock)
+}
+
+func (self *LockDB) AddMillisecondExpried(lock *Lock) {
+	lock.expried = false
+	now := time.Now().UnixNano() / 1e6
+	lock.expriedMs = now + int64(lock.command.Expried)
+	self.pushMillisecondExpried(lock, now+int64(lock.command.Expried%MILLISECOND_QUEUE_LENGTH))
 	if lock.longWaitIndex > 0 {
 		self.slock.Log().Errorf("Database long expried wait index error %d %d", lock.longWaitIndex, lock.expriedTime)
 		lock.longWaitIndex = 0
